@@ -162,7 +162,7 @@ func (e *Enc) enterLoop(fr *Frame, li *loopInfo, st *State) *State {
 			e.writeLog[k] = true
 			// every write of the body to this component goes through an object allocated by this function: objects
 			// that existed when the function started are untouched by any number of iterations
-			if !nonLocal[k] && !written["*"] && refIndexedKey(k) {
+			if (!nonLocal[k] || (spec != nil && spec.FreshWrites)) && !written["*"] && refIndexedKey(k) {
 				e.assert("(forall ((r Int)) (! (=> (<= r alloc@0) (= (select " + h.heap[k] + " r) (select " + before + " r))) :pattern ((select " + h.heap[k] + " r))))")
 			} else if nonLocal[k] {
 				e.noteNonLocal(k)
@@ -364,8 +364,12 @@ func refIndexedKey(k string) bool {
 			return true
 		}
 	}
-	return false
+	return refKeyedGhost[k]
 }
+
+// refKeyedGhost: heap keys "G|name" of ghost variables declared map[ref]... / map[*T]... (their first-level index is an
+// object reference, like the Go heap components). Filled once per run from the specification database.
+var refKeyedGhost = map[string]bool{}
 
 func (e *Enc) noteNonLocal(k string) {
 	if e.writeNonLocal == nil {
